@@ -565,7 +565,31 @@ func (e *Exec) appendOp(args []Value, c *ssa.CallCommon, site string) Value {
 		}
 		return &SliceV{O: dst.O, P: dst.P, Off: dst.Off, Len: cbv(uint64(dn), 64), Cap: dst.Cap}
 	}
-	// always reallocate: Go may or may not alias; code relying on aliasing after append is out of scope
+	// Appending to a slice of the linted object: the parser grows its lists with append, so a parsed
+	// slice may or may not have spare capacity.  Both cases are explored (one Bool per input slice):
+	// with spare capacity the result ALIASES the object's backing array, so a later store through the
+	// result to an index below the original length is a store into the linted object (seen by the
+	// write monitor).  The appended elements themselves land beyond len and are not observable.
+	if dst.O != nil && strings.HasPrefix(dst.O.Tag, "lazy:") && len(dst.P) == 0 && dst.Off == 0 && !e.cfg.NoSpareCap {
+		if arr, ok := dst.O.V.(*ArrayV); ok {
+			sym := quoteSym(strings.TrimPrefix(dst.O.Tag, "lazy:") + "!spare")
+			e.declareInput(sym, "Bool")
+			if e.branch(&BoolV{T: sym}) {
+				for len(arr.E) < int(dn)+len(srcElems) {
+					arr.E = append(arr.E, nil)
+				}
+				for i, v := range srcElems {
+					arr.E[int(dn)+i] = v
+				}
+				nc := dst.Cap
+				if int(dn)+len(srcElems) > nc {
+					nc = int(dn) + len(srcElems)
+				}
+				return &SliceV{O: dst.O, Len: cbv(uint64(int(dn)+len(srcElems)), 64), Cap: nc}
+			}
+		}
+	}
+	// otherwise reallocate (appends to slices created during the run never alias here: code relying on that is out of scope)
 	narr := &ArrayV{E: make([]Value, 0, int(dn)+len(srcElems))}
 	for i := 0; i < int(dn); i++ {
 		narr.E = append(narr.E, e.sliceElem(dst, i))
